@@ -61,7 +61,7 @@ func makeJob(seed int64, idx int) *JobSpec {
 				continue
 			}
 			used[ch] = true
-			j.Regs = append(j.Regs, opReg{ch, []string{"infix", "infix", "prefix", "postfix"}[r.IntN(4)], 2 + r.IntN(12)})
+			j.Regs = append(j.Regs, opReg{ch: ch, role: []string{"infix", "infix", "prefix", "postfix"}[r.IntN(4)], level: 2 + r.IntN(12)})
 		}
 	case 3:
 		j.Retype = []string{"m", "k", "foo"}[r.IntN(3)]
